@@ -902,7 +902,7 @@ def make_stub_modules(interp):
         "collections.abc": StubModule("collections.abc", {"Sequence": TypeTag("Sequence", None), "Iterable": TypeTag("Iterable", None), "Callable": TypeTag("Callable", None)}),
         "typing": StubModule("typing", {"TYPE_CHECKING": False, "Any": Opaque("Any"), "Callable": TypeTag("Callable", None), "Literal": Opaque("Literal"), "cast": lambda t, v: v}),
         "itertools": StubModule("itertools", {"product": lambda *its, repeat=1: [tuple(p) for p in itertools.product(*[interp.iterate(i) for i in its], repeat=repeat)], "chain": lambda *its: [x for i in its for x in interp.iterate(i)]}),
-        "functools": StubModule("functools", {"reduce": Opaque("reduce"), "partial": Opaque("partial"), "wraps": lambda f: (lambda g: g)}),
+        "functools": StubModule("functools", {"reduce": Opaque("reduce"), "partial": lambda f, *a, **k: (lambda *b, **kk: interp.call(f, [*a, *b], {**k, **kk})), "wraps": lambda f: (lambda g: g)}),
         "scipy": StubModule("scipy", {"sparse": StubModule("scipy.sparse", {
             "dok_matrix": lambda shape, **k: A.fresh_array("dok_matrix", tuple(shape), lambda idx: Fraction(0)),
             "linalg": Opaque("scipy.sparse.linalg")}), "ndimage": Opaque("scipy.ndimage")}),
@@ -1039,7 +1039,12 @@ def list_attr(interp, obj, name):
     if name == "copy":
         return obj.copy
     if name == "index":
-        return obj.index
+        def index(x, *a):
+            try:
+                return obj.index(x, *a)
+            except ValueError as e:
+                raise PyRaise("ValueError", (str(e),)) from None
+        return index
     if name == "count":
         return obj.count
     if name == "reverse":
